@@ -61,6 +61,7 @@ type Engine struct {
 	boxNotes  map[string]bool
 	known     []KnownFinding
 	specQuiet int
+	ginitCache map[*types.Var]ast.Expr
 	topFns    map[string]*FnCtx
 	quickCache map[string]bool
 	quickCtr  int
@@ -104,7 +105,7 @@ func newEngine() *Engine {
 		unmod: map[string]bool{}, assumed: map[string]bool{}, notes: map[string]bool{}, ordinals: map[string]int{},
 		typeTags: map[string]int{}, tagTypes: map[int]types.Type{}, usedUF: map[string]bool{}, boxNotes: map[string]bool{},
 		strLits: map[string]string{}, floatLits: map[string]string{}, gnn: map[*types.Var]bool{}, boxedAll: map[types.Object]bool{},
-		defs: map[string]string{}, dynUF: map[string]*UFDecl{}, leafTypes: map[string]types.Type{}, symAxioms: map[string][]string{}, topFns: map[string]*FnCtx{}, quickCache: map[string]bool{}, litConsts: map[string]bool{},
+		defs: map[string]string{}, dynUF: map[string]*UFDecl{}, leafTypes: map[string]types.Type{}, symAxioms: map[string][]string{}, topFns: map[string]*FnCtx{}, ginitCache: map[*types.Var]ast.Expr{}, quickCache: map[string]bool{}, litConsts: map[string]bool{},
 	}
 }
 
